@@ -476,7 +476,7 @@ func c14GenOdd(r *Run, rng *gen.Rng, corpus []string, oddPool []string) *c14Hist
 	h.Mount0 = rng.Pick([]string{"/sim/m", "/w/my proj", "/srv/a/b", "/w/proj-1.2/src", "/home/u/.config/t"})
 	h.Exe0 = rng.Pick([]string{"/sim/x", "/opt/tsh/bin"})
 	mounts := []string{"/sim/m", "/w/my proj", "/srv/a/b", "/mnt/other place/p", "/m2", "/w/100% (x)/p", "/w/a+b [1]", "/w/it's/$HOME", "/w/UPPER/lower", "/" + strings.Repeat("deep/", 12) + "p",
-		"/home/u/.dotfiles/scripts", "/w/proj-1.2/src", "/tmp/tmp.AbC123/p", "/w/a.b/c.d/e", "/w/projet-été/src", "/home/ユーザー/p", "/w/backup-2026-09-24T10:30:00/p", "/w/greeter:v2", "/w/a;b,c=d/p",
+		"/home/u/.dotfiles/scripts", "/w/proj-1.2/src", "/tmp/tmp.AbC123/p", "/w/a.b/c.d/e", "/w/projet-été/src", "/home/ユーザー/p", "/w/backup-2026-09-24T10:30:00/p", "/w/greeter:v2", "/w/a;b,c=d/p", "/w/copy\\2/p", "/w/back\\slash", "/w/say \"hi\"/p", "/w/c:\\users\\me/p", "/w/tab\there/p",
 		// next to the std directory, in directories whose names merely begin like it
 		"@EXE/std-examples/p", "@EXE/stdlib", "@EXE/std2/x",
 		// a location that contains every letter, digit and the punctuation of file names
